@@ -70,6 +70,28 @@ fn heap_dangling_handle_is_inert() {
     std::mem::forget(st);
 }
 
+/// the storage becomes EMPTY in between: a handle released earlier must stay dead when new objects are
+/// allocated afterwards (slot versions must survive an empty storage)
+#[kani::proof]
+#[kani::unwind(6)]
+fn heap_stale_handle_after_empty() {
+    let mut st = HeapStorage::default();
+    let a = st.insert(HeapObject::new(1));
+    let closure_variant: bool = kani::any();
+    if closure_variant { heap_release_closure(&mut st, a) } else { heap_release(&mut st, a) }
+    assert!(st.get(a).is_none() && st.len() == 0);
+    let c = st.insert(HeapObject::new(3));
+    assert!(c != a && st.get(a).is_none());
+    let which: u8 = kani::any();
+    match which % 3 {
+        0 => heap_retain(&mut st, a),
+        1 => heap_release(&mut st, a),
+        _ => heap_release_closure(&mut st, a),
+    }
+    assert!(st.get(c).is_some() && st.get(c).unwrap().refcount == 1 && st.get(c).unwrap().size == 3 && st.len() == 1);
+    std::mem::forget(st);
+}
+
 /// validation of the trusted SlotMap model (get_mut / remove / key freshness) on the real crate
 #[kani::proof]
 #[kani::unwind(6)]
